@@ -65,6 +65,15 @@ def _creator():
     return _CREATORS[fn]
 
 
+def _plan_builder():
+    """A generator that builds plan nodes for whoever resumes it (a plan-building coroutine): its own frame stays the
+    same object while the frame that resumes it - and so the rest of the stack - changes from one node to the next."""
+    job = yield None
+    while True:
+        f, a, k = job
+        job = yield _creator()(f, a, k)
+
+
 def _create(d, thunk):
     """Create a symbolic call at helper-nesting depth d (d < 0: no helper frame at all)."""
     if d < 0:
@@ -180,6 +189,8 @@ def build(world, with_registry=True, _holder=None):
         b.nodes[i] = node
         b.ids[id(node)] = i
 
+    gen = [None]
+
     for n in world["nodes"]:
         i = n["id"]
         kind = n["kind"]
@@ -197,7 +208,19 @@ def build(world, with_registry=True, _holder=None):
                     b.frames[("node", i)] = fr
                     return node
 
-                remember(i, _create(depth, thunk))
+                if world.get("gen_build") and depth < 1:
+                    # created by the generator, which is resumed alternately from two different lines
+                    if gen[0] is None:
+                        gen[0] = _plan_builder()
+                        next(gen[0])
+                    if i % 2:
+                        fr, node = gen[0].send((plan.call, (fn, *args), kwargs))
+                    else:
+                        fr, node = _resume_elsewhere(gen[0], (plan.call, (fn, *args), kwargs))
+                    b.frames[("node", i)] = fr
+                    remember(i, node)
+                else:
+                    remember(i, _create(depth, thunk))
             elif kind == "lit":
                 remember(i, plan.lit(materialise(n["value"], b)))
             elif kind == "gather":
@@ -277,6 +300,10 @@ def build(world, with_registry=True, _holder=None):
         b.output = materialise(world["output"], b)
     b.complete = True
     return b
+
+
+def _resume_elsewhere(g, job):
+    return g.send(job)
 
 
 def build_in_bare_thread(world):
